@@ -419,9 +419,21 @@ func suiteC18(s *Shard, n int) {
 		defVB, defPal, magic := ivg.DefaultViewBox, ivg.DefaultPalette, append([]byte(nil), ivg.MagicBytes...)
 		// a shared options slice built by append: it has spare capacity behind its length
 		shared := make([]decode.DecodeOption, 0, 4)
-		shared = append(shared, decode.WithPalette(pal))
+		optPal := pal
 		if r.Bool() {
-			shared = append(shared, decode.WithColorAt(r.Intn(64), r.Premul()))
+			// user palettes may hold nonsensical colours (the decoder replaces them by opaque black in what it delivers): ONE
+			// option value shared by all goroutines must not be where that replacement is written (round 4, C18-H)
+			for k := 1 + r.Intn(6); k > 0; k-- {
+				optPal[r.Intn(64)] = r.RGBAAny()
+			}
+		}
+		shared = append(shared, decode.WithPalette(optPal))
+		if r.Bool() {
+			c := r.Premul()
+			if r.Chance(30) {
+				c = r.RGBAAny()
+			}
+			shared = append(shared, decode.WithColorAt(r.Intn(64), c))
 		}
 		spare := shared[:cap(shared)]
 		// the concurrent batch comes FIRST (no serial warm-up of anything initialised lazily), the serial
